@@ -88,6 +88,13 @@ Definition handfill_flat (name desc : Z) (codes : list (Z * Z)) : list Z :=
   let f := fold_left (wstep _ _ _) (map hand_op codes) (create _ _ _ (mkspt 2 None None None name desc None [] [])) in
   [if f_writing _ _ _ f then 1%Z else 0%Z; f_name _ _ _ f; f_desc _ _ _ f;
    Z.of_nat (length (f_mpos _ _ _ f)); Z.of_nat (length (f_caps _ _ _ f))].
+(* close() / remove() sequences on a file object (C17): mode 0/1/2 = read / write / overwrite, ops 0 = close, 1 = remove;
+   per operation [refused; file exists afterwards] *)
+Definition fobj_flat (m : Z) (given : bool) (ops : list Z) : list Z :=
+  let md := match m with 0%Z => MRead | 1%Z => MWrite | _ => MOverwrite end in
+  flat_map (fun r : bool * bool => [if fst r then 1%Z else 0%Z; if snd r then 1%Z else 0%Z])
+    (fo_run false {| o_mode := md; o_given := given; o_open := true; o_there := true |}
+       (map (fun z => match z with 0%Z => FClose | _ => FRemove end) ops)).
 Definition mode_table : list Z :=
   flat_map (fun m => flat_map (fun e =>
      [match open_mode m e with Created => 0 | Replaced => 1 | OpenedExisting => 2 | Refused => 3 end]%Z)
